@@ -10,6 +10,7 @@ import (
 	"fmt"
 	"os"
 	"os/exec"
+	"runtime/metrics"
 	"strings"
 	"sync/atomic"
 	"time"
@@ -96,9 +97,18 @@ func workerMain(args []string) {
 	go func() {
 		// self-watchdog: one evaluation (or generation) stuck for two minutes of
 		// wall clock is reported as harness trouble (exit 4), never as a violation
-		for {
-			time.Sleep(5 * time.Second)
-			if time.Now().Unix()-atomic.LoadInt64(&progress) > 120 {
+		// and a worker whose live heap passes 2.5 GiB (a runaway allocation in
+		// the code under test; the sandbox has no memory limit of its own) is
+		// ended the same way
+		sample := []metrics.Sample{{Name: "/memory/classes/heap/objects:bytes"}}
+		for tick := 0; ; tick++ {
+			time.Sleep(250 * time.Millisecond)
+			metrics.Read(sample)
+			if sample[0].Value.Kind() == metrics.KindUint64 && sample[0].Value.Uint64() > 2560<<20 {
+				fmt.Fprintf(os.Stderr, "worker heap exceeds 2.5 GiB in %v\n", current.Load())
+				os.Exit(4)
+			}
+			if tick%20 == 0 && time.Now().Unix()-atomic.LoadInt64(&progress) > 120 {
 				fmt.Fprintf(os.Stderr, "worker stalled for >120s in %v\n", current.Load())
 				os.Exit(4)
 			}
